@@ -254,6 +254,22 @@ def _str_key(case, g, env):
         return False
 
 
+def _obj_len_all_missing(case, n):
+    """signature flag only (no comparison depends on it): node ``n`` is ``<object input column>.str.len()`` and some
+    non-empty input partition of that column holds nothing but missing values"""
+    if n.get("e") != "acc" or n.get("acc") != "str" or n.get("m") != "len":
+        return False
+    x = n.get("x") or {}
+    if x.get("e") != "col" or x.get("name") not in case.base.columns or case.base[x["name"]].dtype != object:
+        return False
+    col, lo = case.base[x["name"]], 0
+    for s in case.sizes:
+        if s and bool(col.iloc[lo : lo + s].isna().all()):
+            return True
+        lo += s
+    return False
+
+
 def _all_missing_over_nothing(case, got):
     return len(case.pdf) == 0 and isinstance(got, pd.Series) and len(got) > 0 and bool(got.isna().all())
 
@@ -308,6 +324,15 @@ def check(spec):
         for n in D.walk(ops)
     )
     sig["str_getitem"] = any(n.get("e") == "acc" and n.get("acc") == "str" and n.get("m") == "getitem" for n in D.walk(ops))
+    # input class of the open finding c42-object-column-str-len-missing-object: `.str.len()` of an OBJECT input column
+    # of which some non-empty input partition holds only missing values (pandas' result for it is object, not float64)
+    sig["obj_str_len_all_missing"] = any(_obj_len_all_missing(case, n) for n in D.walk(ops))
+    # input class of the open finding c42-binop-frames-projection-nullable-dtype: frame <op> frame where a NULLABLE input
+    # column is selected on one side only (the optimizer's projection pushdown then evaluates `ddf[[]] <op> ddf[[col]]`)
+    nullable_cols = {c["name"] for c in spec["frame"]["columns"] if c["kind"] in ("Int64", "Float64", "boolean")}
+    sig["frame_frame_onesided_nullable"] = any(
+        o["op"] == "frame_frame" and "cols2" in o and bool((set(o["cols"]) ^ set(o["cols2"])) & nullable_cols) for o in ops
+    )
     fin = spec.get("final") or {}
     if "red" in fin:
         sig["skipna_false"] = (fin["red"].get("kw") or {}).get("skipna") is False
